@@ -107,6 +107,9 @@ def int_spec(rng, n=200, d=None, res=None, with_time=False, all_log=False, all_l
                 extra=[('$CYT', 'rv-zoo'), ('$DATE', '05-JAN-2020'), ('$BTIM', '10:00:00'), ('$ETIM', '10:01:30')])
     if with_time:
         spec['extra'].append(('$TIMESTEP', '0.01'))
+    if version != 'FCS2.0' and spec['version'] != 'FCS2.0' and rng.random() < 0.3:
+        # a non-empty ANALYSIS segment (gates / statistics stored by the acquisition software): part of the sample's metadata
+        spec['analysis'] = [('GATE1', '100,200,300,400'), ('G1 %TOTAL', '%.1f' % float(rng.uniform(1, 99))), ('ANALYST', 'rv-zoo')]
     return spec
 
 
